@@ -256,7 +256,7 @@ class _ExprCanon(ast.NodeTransformer):
             return _loc(ast.BinOp(left=node.left, op=ast.Sub() if isinstance(node.op, ast.Add) else ast.Add(), right=neg), node)
         return node
 
-    def visit_IfExp(self, node: ast.IfExp):
+    def _ifexp(self, node: ast.IfExp):
         self.generic_visit(node)
         node.test = simplify_test(node.test)
         # True if c else False -> bool(c) ;  False if c else True -> not c
@@ -270,14 +270,48 @@ class _ExprCanon(ast.NodeTransformer):
             node.test, node.body, node.orelse = node.test.operand, node.orelse, node.body
         return node
 
+    @staticmethod
+    def _boolean(e: ast.AST) -> bool:
+        """e evaluates to a bool (not merely to something truthy / falsy)."""
+        if isinstance(e, ast.Compare):
+            return True
+        if isinstance(e, ast.UnaryOp) and isinstance(e.op, ast.Not):
+            return True
+        if isinstance(e, ast.Constant) and isinstance(e.value, bool):
+            return True
+        if isinstance(e, ast.BoolOp):
+            return all(_ExprCanon._boolean(v) for v in e.values)
+        if isinstance(e, ast.Call) and isinstance(e.func, ast.Name) and e.func.id in ("bool", "isinstance", "issubclass", "callable", "hasattr", "any", "all"):
+            return True
+        return False
+
     def visit_UnaryOp(self, node: ast.UnaryOp):
         self.generic_visit(node)
         if isinstance(node.op, ast.Not):
-            return simplify_test(node)
+            r = simplify_test(node)
+            # `not X` is a bool; its simplification (`not not e` -> `e`, `not len(e) == 0` -> `e`) only has e's truth value
+            if not self._boolean(r):
+                r = _loc(ast.Call(func=_loc(ast.Name(id="bool", ctx=ast.Load()), node), args=[r], keywords=[]), node)
+            return r
         return node
+
+    def visit_IfExp(self, node: ast.IfExp):
+        r = self._ifexp(node)
+        # D[K] if K in D else X  ->  D.get(K[, X])
+        if isinstance(r, ast.IfExp) and isinstance(r.test, ast.Compare) and len(r.test.ops) == 1 and isinstance(r.test.ops[0], (ast.In, ast.NotIn)):
+            present, absent = (r.body, r.orelse) if isinstance(r.test.ops[0], ast.In) else (r.orelse, r.body)
+            K, D = r.test.left, r.test.comparators[0]
+            if isinstance(present, ast.Subscript) and ast.dump(present.value) == ast.dump(D) and ast.dump(present.slice) == ast.dump(K) and is_pure(D) and is_pure(K) and is_pure(absent):
+                args = [K] if _const(absent, None) else [K, absent]
+                return _loc(ast.Call(func=_loc(ast.Attribute(value=D, attr="get", ctx=ast.Load()), r), args=args, keywords=[]), r)
+        return r
 
     def visit_Compare(self, node: ast.Compare):
         self.generic_visit(node)
+        # constant on the left (`None is x`, `0 == n`)  ->  on the right
+        if len(node.ops) == 1 and isinstance(node.left, ast.Constant) and not isinstance(node.comparators[0], ast.Constant) \
+                and isinstance(node.ops[0], (ast.Is, ast.IsNot, ast.Eq, ast.NotEq)):
+            node.left, node.comparators = node.comparators[0], [node.left]
         # D.get(K, SENTINEL) is SENTINEL  ->  K not in D      (SENTINEL: a NAME_IN_CAPS the mapping cannot hold)
         if len(node.ops) == 1 and isinstance(node.ops[0], (ast.Is, ast.IsNot)) and isinstance(node.comparators[0], ast.Name):
             c, sname = node.left, node.comparators[0].id
@@ -387,6 +421,22 @@ class _ExprCanon(ast.NodeTransformer):
         # dict(a=x, b=y) -> {'a': x, 'b': y}
         if isinstance(node.func, ast.Name) and node.func.id == "dict" and not node.args and node.keywords and all(k.arg is not None for k in node.keywords):
             return _loc(ast.Dict(keys=[ast.Constant(value=k.arg) for k in node.keywords], values=[k.value for k in node.keywords]), node)
+        # 'lit{}lit'.format(a)  ->  f'lit{a}lit'   (plain positional fields only)
+        if isinstance(node.func, ast.Attribute) and node.func.attr == "format" and isinstance(node.func.value, ast.Constant) and isinstance(node.func.value.value, str) \
+                and not node.keywords and node.args and not any(isinstance(a_, ast.Starred) for a_ in node.args):
+            import re as _re
+
+            tmpl = node.func.value.value
+            parts = _re.split(r"(\{\})", tmpl)
+            if parts.count("{}") == len(node.args) and not _re.search(r"[{}]", "".join(p_ for p_ in parts if p_ != "{}")):
+                vals: List[ast.expr] = []
+                it_ = iter(node.args)
+                for p_ in parts:
+                    if p_ == "{}":
+                        vals.append(_loc(ast.FormattedValue(value=next(it_), conversion=-1, format_spec=None), node))
+                    elif p_:
+                        vals.append(_loc(ast.Constant(value=p_), node))
+                return self.visit_JoinedStr(_loc(ast.JoinedStr(values=vals), node))
         if enabled("C8"):
             r = self._functional(node)
             if r is not None:
@@ -2374,11 +2424,87 @@ def may_write_table(modules: Dict[str, ast.Module]) -> Dict[str, Set[str]]:
     return direct
 
 
+def _inline_new_constants(modules: Dict[str, ast.Module], known: Set[str]) -> int:
+    """C11: a module-level `NAME = <literal>` that the reference tree does not have (the frozen list names the reference's
+    module-level names as `mod:NAME`), assigned once and never rebound, is the literal at each of its uses in that module
+    ("replace a magic literal by a constant" undone).  Names that another module imports stay."""
+    n_inl = 0
+    imported: Set[str] = set()
+    for tree in modules.values():
+        for st in ast.walk(tree):
+            if isinstance(st, ast.ImportFrom):
+                imported.update(a.name for a in st.names)
+    for mod, tree in modules.items():
+        cands: Dict[str, ast.expr] = {}
+        counts: Dict[str, int] = {}
+        for n in ast.walk(tree):
+            if isinstance(n, ast.Name) and isinstance(n.ctx, (ast.Store, ast.Del)):
+                counts[n.id] = counts.get(n.id, 0) + 1
+            elif isinstance(n, (ast.Global, ast.Nonlocal)):
+                for x in n.names:
+                    counts[x] = counts.get(x, 0) + 5
+            elif isinstance(n, ast.arg):
+                counts[n.arg] = counts.get(n.arg, 0) + 5
+        for st in tree.body:
+            tgt = st.targets[0] if isinstance(st, ast.Assign) and len(st.targets) == 1 else (st.target if isinstance(st, ast.AnnAssign) and st.value is not None else None)
+            if isinstance(tgt, ast.Name) and f"{mod}:{tgt.id}" not in known and counts.get(tgt.id, 0) == 1 and tgt.id not in imported:
+                v = st.value
+                lit = isinstance(v, ast.Constant) and (v.value is None or isinstance(v.value, (str, int, float, bool)))
+                neg = isinstance(v, ast.UnaryOp) and isinstance(v.op, ast.USub) and isinstance(v.operand, ast.Constant) and isinstance(v.operand.value, (int, float))
+                if lit or neg:
+                    cands[tgt.id] = v
+        if not cands:
+            continue
+
+        class Sub(ast.NodeTransformer):
+            def visit_Name(self, node: ast.Name):
+                nonlocal n_inl
+                if node.id in cands and isinstance(node.ctx, ast.Load):
+                    n_inl += 1
+                    return ast.copy_location(copy.deepcopy(cands[node.id]), node)
+                return node
+
+        tree.body = [Sub().visit(st) for st in tree.body]
+    return n_inl
+
+
+def _positional_private_calls(modules: Dict[str, ast.Module]) -> None:
+    """C11: `_helper(a=x, b=y)` -> `_helper(x, y)` for a private module-level function of the same module whose leading
+    positional parameters are all given (keyword <-> positional spelling of one call)."""
+    for mod, tree in modules.items():
+        defs = {st.name: st for st in tree.body if isinstance(st, FuncNode) and st.name.startswith("_")}
+        if not defs:
+            continue
+        for c in ast.walk(tree):
+            if not (isinstance(c, ast.Call) and isinstance(c.func, ast.Name) and c.func.id in defs and c.keywords):
+                continue
+            d = defs[c.func.id]
+            a = d.args
+            if a.vararg or a.posonlyargs or any(isinstance(x, ast.Starred) for x in c.args) or any(k.arg is None for k in c.keywords):
+                continue
+            pos = [x.arg for x in a.args]
+            kw = {k.arg: k for k in c.keywords}
+            new_args = list(c.args)
+            i = len(new_args)
+            moved = []
+            while i < len(pos) and pos[i] in kw:
+                new_args.append(kw[pos[i]].value)
+                moved.append(pos[i])
+                i += 1
+            # argument evaluation order must stay: the moved keywords must have been the first keywords, in this order
+            if moved and [k.arg for k in c.keywords[:len(moved)]] == moved:
+                c.args = new_args
+                c.keywords = [k for k in c.keywords if k.arg not in moved]
+
+
 def canonicalise(modules: Dict[str, ast.Module], known_funcs: Optional[Set[str]] = None) -> Dict[str, int]:
     """Rewrite all function bodies of the package in place.  Returns counters."""
     stats = {"functions": 0, "changed": 0, "inlined_helpers": 0}
     if os.environ.get("SA_CANON", "all") in ("0", "none", "off"):
         return stats
+    if enabled("C11") and known_funcs is not None:
+        stats["inlined_constants"] = _inline_new_constants(modules, known_funcs)
+        _positional_private_calls(modules)
     may_write = may_write_table(modules)
     funcs = {mod: _all_functions(tree) for mod, tree in modules.items()}
     for mod, lst in funcs.items():
